@@ -56,7 +56,16 @@ RULE = ("state types positive/complex/mixed, nv 1..5 in both tiers (quick: fewer
         "repeats per family, > 20000 rows in float16 / uint8 / int8 for Z and ZZ(c=1) on the very-long states; required: no exception, tensor (contents, "
         "dtype, strides) unchanged, one real floating number per row, sum_s p(s)/Z apply(s) == Re tr(rho Op) within the double tolerance + 4 rounding units "
         "of the returned dtype, |.| for absolute=True, rows of a batch equal to the float64 per-sample values; every other dtype (and complex128) is "
-        "evaluated on the fixed states and its outcome only counted ('informational')")
+        "evaluated on the fixed states and its outcome only counted ('informational'); "
+        "CONSTRUCTION FORMS (red-team round 2; /repo 149bb9b): every observable is built through the documented call forms - keyword, positional in the "
+        "documented order SigmaX(absolute) / NeighbourInteraction(periodic_bcs, c), mixed, keywords in the other order, defaults left out, np.bool_ flags, the "
+        "distance c as np.uint8/16/32/64, np.int8/16/32/64 and 0-d arrays - all of them on the 6 fixed states (n = 1..4, every c, both boundaries: trace identity), "
+        "one drawn form per observable and state in the random stream (it is then the instance every other relation of that state uses), a fixed rotation in the "
+        "histories' shared pool; a constructor that raises is a failing input; "
+        "NO WRITE to the caller's tensor: besides equal contents / dtype / shape / strides, torch's write counter (_version) of the sample tensor must not move "
+        "during apply (every apply of the check), tensors that cannot be written (one row expanded with stride 0, inference-mode tensors) must be accepted, and a "
+        "FAULT inside the state (a delegating stand-in whose k-th importance_sampling_numerator / _weight call raises, k = 1..n on the fixed states, drawn otherwise) "
+        "must leave the tensor holding its values, the next ordinary apply of the same instance giving the per-sample values")
 ASSUMPTIONS = ["torch elementwise kernels implement the real functions up to rounding",
                "states with |effective energy| > 300 are skipped (double overflow in |psi|^2 products), counted as skipped_overflow",
                "histories: a mutation operator is the CALLER's action (torch in-place ops, fit, load, optimizer ...); when the operator itself raises, "
@@ -71,7 +80,15 @@ ASSUMPTIONS = ["torch elementwise kernels implement the real functions up to rou
                "SigmaX / SigmaY on pure states, which the unchanged library ACCEPTS and evaluates WRONGLY (flip_spin's sub_(1).abs_() wraps 0 - 1 to 255): "
                "reported to the integrator, not required here",
                "values returned in a narrower floating dtype than double (float32 for integer samples, the sample dtype for float32/16/bfloat16 samples of Z / ZZ) "
-               "are compared with 4 rounding units of that dtype added to the tolerance"]
+               "are compared with 4 rounding units of that dtype added to the tolerance",
+               "seed C08d (dtype-keeping to_pm1 + plain division: ZZ wrong on torch.uint8 samples) is IN the property: the statement fixes the per-sample value as a "
+               "function of the basis state and the unchanged library evaluates uint8 samples correctly for ZZ",
+               "OUT of scope (red-team round 2, C08_0, unchanged tree): states built from module= whose parameters have requires_grad=True make SigmaX / SigmaY raise "
+               "(torch.mul(..., out=...) on autograd tensors) - no documented construction path yields trainable parameters (the RBM classes create them with "
+               "requires_grad=False), so such states are not generated",
+               "the sample tensor's write counter (torch's _version) is required not to move during apply: 'leaves the sample array unchanged' is read as 'does not "
+               "write to it' (a write that is undone before returning is visible to a concurrent reader, fails on unwritable tensors and is left behind by an exception); "
+               "the fault stand-in delegates every attribute to the real state and does not subclass or patch the library"]
 
 I2 = np.eye(2, dtype=complex)
 PX = np.array([[0, 1], [1, 0]], dtype=complex)
@@ -432,7 +449,7 @@ def check_state(ctx, kind, nv, nh, na, params, with_model=True, very_long=False,
         out_abs = run_apply(mkT(), name + "(absolute)", space.clone())
         if out_abs is not None:
             ctx.require(name + ": absolute=True is the pointwise absolute value", bool(np.allclose(out_abs, np.abs(out), rtol=1e-12, atol=0)),
-                        dict(case, observable=name + "(absolute)"))
+                        dict(case, observable=name + "(absolute)", constructed=formname.get(name + "(absolute)")))
         sc = rowscale if k < 2 else np.ones(N)
         refs.append((name, name[-1], mkF, mean_site(M, n), out, sc, None, sigma_forms(cls, False)))
         if out_abs is not None:
@@ -915,6 +932,19 @@ def obs_pool(ctx):
     return ctx._c08_pool
 
 
+def construct(H, box, name, ctor):
+    """the observable built in the call form the table prescribes; a constructor that raises is a failing input (once per name and run)"""
+    ctx = H.ctx
+    bad = ctx.__dict__.setdefault("_c08_bad_ctor", set())
+    try:
+        return ctor()
+    except Exception as e:
+        if name not in bad:
+            bad.add(name)
+            ctx.require(name + ": constructor raised " + type(e).__name__, False, H.case(box, name), repr(e)[:300])
+        return None
+
+
 class Box:
     """one live state object + the numpy view of what it currently is"""
 
@@ -1022,7 +1052,10 @@ def reference(H, box):
     ctx = H.ctx
     ref = {}
     for name, ctor, Op, twin in obs_table(box.nv):
-        t, out = h_apply(H, box, ctor(), name, torch.tensor(box.sp, dtype=torch.double), what=name + " (fresh tensor, fresh observable)")
+        O = construct(H, box, name, ctor)
+        if O is None:
+            continue
+        t, out = h_apply(H, box, O, name, torch.tensor(box.sp, dtype=torch.double), what=name + " (fresh tensor, fresh observable)")
         if out is None:
             continue
         ref[name] = out
@@ -1064,7 +1097,10 @@ def evaluate(H, box, buf, label, acc=None, rowcheck=True, names=None, scribble=N
     shown = rows.tolist() if len(rows) <= 32 else "%d rows" % len(rows)
     for name in order:
         if name not in pool:
-            pool[name] = table[name][1]()
+            O = construct(H, box, name, table[name][1])
+            if O is None:
+                continue
+            pool[name] = O
         t, out = h_apply(H, box, pool[name], name, buf)
         if out is None:
             continue
@@ -1131,6 +1167,8 @@ def evaluate(H, box, buf, label, acc=None, rowcheck=True, names=None, scribble=N
             # the reference ran on other tensors: evaluate the buffer once more (nothing changed: same values) so that it is
             # again the most recently evaluated tensor when the next mutation comes
             for name in order:
+                if name not in pool:
+                    continue
                 t, out = h_apply(H, box, pool[name], name, buf)
                 if out is not None and name in outs and not np.allclose(out, outs[name], rtol=1e-9, atol=1e-11):
                     ctx.require(name.replace("(absolute)", "") + ": value of a row does not depend on the rest of the batch", False,
@@ -1194,7 +1232,9 @@ def sample_ops(H, box, layout):
         # Observable.sample with the caller's chain: advances buf in place and returns the values of its NEW rows
         for name in ("SigmaX", "SigmaY", "SigmaZ"):
             H.tseed()
-            O = pool.get(name) or obs_table(n)[[t[0] for t in obs_table(n)].index(name)][1]()
+            O = pool.get(name) or construct(H, box, name, obs_table(n)[[t[0] for t in obs_table(n)].index(name)][1])
+            if O is None:
+                continue
             ok, out = H.ctx.call(name + ".sample(initial_state=buffer, overwrite=True)", H.case(box, name), lambda: O.sample(box.s, k=1, initial_state=buf, overwrite=True))
             rows = decode_rows(box, buf)
             if ok and rows is not None and box.ref is not None and name in box.ref and isinstance(out, torch.Tensor) and tuple(out.shape) == (len(rows),):
@@ -1207,7 +1247,9 @@ def sample_ops(H, box, layout):
 
     def obs_statistics(buf):
         H.tseed()
-        O = pool.get("SigmaX") or obs_table(n)[0][1]()
+        O = pool.get("SigmaX") or construct(H, box, "SigmaX", obs_table(n)[0][1])
+        if O is None:
+            raise RuntimeError("no SigmaX instance")
         O.statistics(box.s, num_samples=3 * buf.shape[0], burn_in=1, steps=1, initial_state=buf, overwrite=True)
 
     def shrink(buf):
@@ -1653,7 +1695,10 @@ def enc_evaluate(H, box, x, perm, dn, lname, label):
         if dn not in enc_legal(fam, box.kind) or not enc_layouts()[lname][2](fam):
             continue
         if name not in pool:
-            pool[name] = ctor()
+            O = construct(H, box, name, ctor)
+            if O is None:
+                continue
+            pool[name] = O
         c2 = H.case(box, name, sample_dtype=dn, sample_layout=lname, rows_now=perm.tolist()[:32], after=label)
         res = enc_apply(ctx, box.s, pool[name], name, x, c2)
         if res is None:
